@@ -228,4 +228,60 @@ func registerResolver() {
 		Anchored: []string{"(*github.com/hashicorp/go-argmapper.Result).Err", "(*github.com/hashicorp/go-argmapper.Result).Len", "(*github.com/hashicorp/go-argmapper.Result).Out", "(*github.com/hashicorp/go-argmapper.Result).hasError", "(*github.com/hashicorp/go-argmapper.Func).callDirect"},
 		CVQuick:  2, CVThor: 4,
 	})
+
+	w8 := func(entry string, fam, nT, nV, conv, form, x int64, xs ...int64) Shard {
+		args := append([]int64{fam, nT, nV, conv, form, x}, xs...)
+		return sh(entry, fmt.Sprintf("%s: %d target params, %d supplied values, converters=%d, forms=%s, extra=%v", famNames[fam], nT, nV, conv, formNames[form], append([]int64{x}, xs...)), 0, args...)
+	}
+	register(&PropSpec{
+		ID: "C08", Pkg: "argmapper",
+		Quick:    []Shard{w8("HarnessC08", 1, 1, 1, 0, 1, 1), w8("HarnessC08", 1, 2, 1, 11, 1, 2), w8("HarnessC08", 0, 1, 1, 1111, 3, 1), w8("HarnessC08", 0, 2, 1, 11, 0, 0)},
+		Thorough: []Shard{w8("HarnessC08", 1, 1, 1, 0, 1, 1), w8("HarnessC08", 1, 2, 1, 11, 1, 2), w8("HarnessC08", 0, 1, 1, 1111, 3, 2), w8("HarnessC08", 0, 2, 1, 11, 0, 0), w8("HarnessC08", 1, 2, 2, 1111, 1, 1), w8("HarnessC08", 0, 1, 0, 111111, 1, 1), w8("HarnessC08", 4, 1, 1, 1111, 1, 1)},
+		Covers:   []string{"C08.redefine-returned", "C08.redefine-succeeded", "C08.redefined-call-checked", "C08.output-filter-rejection"},
+		Bounds:   []string{"worlds restricted (by assumption) to the property's domain: converters with <=1 input, no subtypes, each name one type; <=2 target parameters, <=2 supplied values, chains of <=2 (quick) / 3 (thorough) converters", "input and output filters are uninterpreted predicates: one symbolic Bool per (name,type) asked"},
+		Outside:  []string{"multi-input converters, subtypes, names denoting several types (outside the property's domain)", "longer chains"},
+		Assume:   common,
+		Anchored: []string{"(*github.com/hashicorp/go-argmapper.Func).Redefine", "(*github.com/hashicorp/go-argmapper.Func).redefineInputs", "(*github.com/hashicorp/go-argmapper.Func).redefineOutputs", "(*github.com/hashicorp/go-argmapper.Func).zeroFunc", "(*github.com/hashicorp/go-argmapper.Func).callGraph"},
+		CVQuick:  2, CVThor: 4,
+	})
+	register(&PropSpec{
+		ID: "C09", Pkg: "argmapper",
+		Quick:    []Shard{w8("HarnessC09", 0, 1, 1, 11, 1, 2, 1), w8("HarnessC09", 0, 1, 1, 11, 9, 1, 1), w8("HarnessC09", 0, 1, 1, 1111, 1, 1, 1), w8("HarnessC09", 0, 1, 1, 11, 1, 1, 0)},
+		Thorough: []Shard{w8("HarnessC09", 0, 1, 1, 11, 1, 3, 1), w8("HarnessC09", 0, 1, 1, 11, 9, 2, 1), w8("HarnessC09", 0, 1, 1, 1111, 1, 2, 1), w8("HarnessC09", 1, 1, 1, 11, 1, 2, 1), w8("HarnessC09", 4, 1, 1, 11, 1, 2, 0), w8("HarnessC09", 0, 1, 1, 1121, 1, 1, 1), w8("HarnessC09", 3, 1, 1, 11, 1, 1, 1)},
+		Covers:   []string{"C09.redefines-done", "C09.results-compared", "C09.run-once-checked"},
+		Bounds:   []string{"template worlds with 1-2 converters (one of them optionally run-once); 1-3 Redefine calls, each one of six symbolically chosen variants (plain, type filter, admit-nothing filter, reject-all output filter, fewer supplied values, interface/OR filter), then Call; compared with a twin world that only Calls", "write tracking: every store to a cell reachable from the supplied Func objects and option slice during Redefine"},
+		Outside:  []string{"more than 3 Redefine calls before the Call", "more than 2 converters"},
+		Assume:   common,
+		Anchored: []string{"(*github.com/hashicorp/go-argmapper.Func).Redefine", "(*github.com/hashicorp/go-argmapper.Func).redefineInputs", "(*github.com/hashicorp/go-argmapper.Func).zeroFunc"},
+		CVQuick:  2, CVThor: 4,
+	})
+	c11 := func(n, form int64) Shard {
+		return sh("HarnessC11", fmt.Sprintf("histories of %d operations from {Call target1, Call target2, Convert, Redefine}, run-once converter in %s form, symbolic failure", n, formNames[form]), 0, n, form)
+	}
+	register(&PropSpec{
+		ID: "C11", Pkg: "argmapper",
+		Quick:    []Shard{c11(2, 1), c11(3, 0), sh("HarnessC11Within", "two needs within one call, struct form", 0, 1), sh("HarnessC11Within", "two needs within one call, built form", 0, 0)},
+		Thorough: []Shard{c11(3, 1), c11(4, 0), c11(3, 2), c11(5, 1), sh("HarnessC11Within", "two needs within one call, struct form", 0, 1), sh("HarnessC11Within", "two needs within one call, built form", 0, 0), sh("HarnessC11Within", "two needs within one call, *struct form", 0, 2)},
+		Covers:   []string{"C11.history-checked", "C11.later-use-checked", "C11.cached-error-checked", "C11.within-call-checked"},
+		Bounds:   []string{"sequential histories of <=3 (quick) / 5 (thorough) operations chosen symbolically from Call on two targets, Convert and Redefine, all needing one run-once converter (directly or through a second converter), fresh symbolic arguments per operation, symbolic failure of the first execution", "repeated needs within one call"},
+		Outside:  []string{"the concurrent clause (goroutine interleavings) is not explored: see C12 for the write-set argument and DESIGN.md", "histories longer than 5"},
+		Assume:   common,
+		Anchored: []string{"(*github.com/hashicorp/go-argmapper.Func).callDirect", "github.com/hashicorp/go-argmapper.FuncOnce"},
+		CVQuick:  2, CVThor: 4,
+	})
+	c12 := func(op, once int64) Shard {
+		ops := []string{"Call", "Convert", "Redefine", "Call twice + Convert", "Redefine + call of the redefined function"}
+		return sh("HarnessC12", fmt.Sprintf("operation %s on shared target/converters/options (symbolic option mix), run-once converter=%d", ops[op], once), 0, op, once)
+	}
+	register(&PropSpec{
+		ID: "C12", Pkg: "argmapper", RaceReplay: true,
+		Quick:    []Shard{c12(0, 0), c12(1, 0), c12(2, 0), c12(3, 0), c12(4, 0), c12(0, 1), c12(3, 1)},
+		Thorough: []Shard{c12(0, 0), c12(1, 0), c12(2, 0), c12(3, 0), c12(4, 0), c12(0, 1), c12(1, 1), c12(2, 1), c12(3, 1), c12(4, 1)},
+		Covers:   []string{"C12.operation-checked"},
+		Bounds:   []string{"shared objects: a struct-form target with default options, two converters (one optionally run-once), an option slice whose composition (Named, NamedSubtype, TypedSubtype, ConverterFunc/Converter, ConverterGen, filters) is symbolic; operations Call, Convert, Redefine, repeated use, call of a redefined function", "write set: every interpreter store (Store, map update/delete, append into spare capacity, copy, reflect.Value.Set) to a cell reachable from the shared objects or from package-level variables; stores made while a sync.Mutex is held are admitted"},
+		Outside:  []string{"functions assembled with BuildFunc (excluded by the property)", "user callbacks", "the Go memory model below the granularity of interpreter loads and stores", "outcome equivalence under interleaving is implied only when the write set is empty or lock-protected"},
+		Assume:   append(common, "non-interference reduction: no unguarded write to pre-existing state => race freedom and sequential outcomes under every interleaving"),
+		Anchored: []string{"(*github.com/hashicorp/go-argmapper.Func).callDirect", "github.com/hashicorp/go-argmapper.NamedSubtype", "github.com/hashicorp/go-argmapper.newArgBuilder", "(*github.com/hashicorp/go-argmapper.Func).argBuilder"},
+		CVQuick:  0, CVThor: 0,
+	})
 }
